@@ -21,7 +21,7 @@ CONFIGS = {
     # name -> (cargo args, extra RUSTFLAGS)
     "default": (["-p", "saphyr-parser", "-p", "saphyr"], ""),
     "noenc": (["-p", "saphyr-parser", "-p", "saphyr", "--no-default-features"], ""),
-    "debug_prints": (["-p", "saphyr-parser", "--features", "saphyr-parser/debug_prints"], ""),
+    "debug_prints": (["-p", "saphyr-parser", "-p", "saphyr", "--features", "saphyr-parser/debug_prints"], ""),
     "release_arith": (["-p", "saphyr-parser", "-p", "saphyr"],
                       "-C overflow-checks=off -C debug-assertions=off"),
 }
@@ -501,4 +501,6 @@ class MissingAnchor(Exception):
 
 
 def load(repo=None, config="default"):
+    if config == "default":
+        config = os.environ.get("VERIF_CONFIG", "default")
     return Facts(extract(repo, config))
